@@ -6,7 +6,7 @@ LEVEL = "exploration"
 
 
 def tasks(tier):
-    return (other_tasks("contracts.determinism_bounded", "C04", "bounded") + other_tasks("contracts.dataplane_bounded", "C04", "bounded")
+    return (contract_tasks("contracts.merge_ded", "C04") + other_tasks("contracts.determinism_bounded", "C04", "bounded") + other_tasks("contracts.dataplane_bounded", "C04", "bounded")
             + other_tasks("contracts.faults_bounded", "C04", "bounded")
             + contract_tasks("contracts.dataplane", "C04", tier=tier)
             + contract_tasks("contracts.connect", "C04", tier=tier)
